@@ -37,7 +37,8 @@ RULE = ("generated command lines (see Domain). non-trivial: check - at least one
         "at least one custom argument whose name contains a dash or that is a bare flag, or a generator that declares "
         "parameters. distinct by canonical JSON")
 ASSUMPTIONS = [
-    "custom argument names never collide with the command's own options or with model parameter names",
+    "custom argument names never collide with the command's own options (names of model parameters are generated: for "
+    "the generator they are custom arguments like any other)",
     "values carry no leading/trailing quotes (the CLI strips them), do not start with '--', and a value starting with a "
     "single dash contains none of the command's own short option letters",
     "a bare flag is never directly followed by a model file (the CLI reads that as flag + value by design)",
@@ -53,7 +54,10 @@ DESIGN_REF = "DESIGN.md section 4 C30"
 
 GRAMMAR = "Model: items+=Item;\nItem: 'item' name=ID ('->' ref=[Item])? ';';\n"
 WORDS = ["flag", "my", "out", "dir", "x", "n1", "long", "name", "v2", "skip", "keywords", "dry", "run"]
-RESERVED = {"target", "language", "overwrite", "grammar", "ignore-case", "output-path", "help", "debug", "project_root"}
+RESERVED = {"target", "language", "overwrite", "grammar", "ignore-case", "output-path", "help", "debug"}
+# names of model parameters (the built-in one and one the registered language adds): the CLI also hands them to the model,
+# but for the generator they are custom arguments like any other
+MODEL_PARAM_NAMES = ["project-root", "project_root", "my-param", "my_param"]
 # values may start with a single dash (click hands unknown short options through unchanged); the letters of the command's
 # own short options (-o, -i, -h) are kept out of such values because click would take them
 VALUES = ["v", "42", "a b", "x=y", "path/to/x", "ünï", "True", "0", "some.file", "it's ok", "a--b", "-5", "-", "-x", "-1.5e3"]
@@ -61,6 +65,8 @@ VALUES = ["v", "42", "a b", "x=y", "path/to/x", "ünï", "True", "0", "some.file
 
 @st.composite
 def names(draw):
+    if draw(st.integers(0, 7)) == 0:
+        return draw(st.sampled_from(MODEL_PARAM_NAMES))
     ws = draw(st.lists(st.sampled_from(WORDS), min_size=1, max_size=3))
     seps = [draw(st.sampled_from(["-", "-", "_"])) for _ in ws[1:]]
     s = ws[0]
@@ -107,6 +113,16 @@ def cases(draw):
         case["declared"] = [[k, m] for k, m in decl.items()] or [["flag", False]]
     else:
         case["declared"] = None
+    # a second registered language (other file pattern, same grammar) with a generator of its own for the same target:
+    # with languages deduced from the file names one command line may mix files of both
+    case["langs"] = [draw(st.sampled_from(["a", "a", "b"])) for _ in case["files"]]
+    declb = {}
+    for k in given:
+        if draw(st.integers(0, 2)) > 0:
+            declb[k] = draw(st.integers(0, 3)) == 0
+    if draw(st.integers(0, 2)) == 0:
+        declb[norm(draw(names()))] = draw(st.booleans())
+    case["declared_b"] = [[k, m] for k, m in declb.items() if k not in RESERVED] or None
     case["gen_lang"] = draw(st.sampled_from(["own", "any"]))
     case["overwrite"] = draw(st.booleans())
     case["outdir"] = draw(st.booleans())
@@ -176,17 +192,25 @@ def evaluate(case):
         with open(gpath, "w", encoding="utf-8") as f:
             f.write(GRAMMAR)
         paths, defects = [], []
+        sel = case["select"]
+        # which registered language a file belongs to (two languages only when the language is deduced from the name)
+        langs = [(lg if (sel == "pattern" and case["cmd"] == "generate") else "a") for lg in case.get("langs", ["a"] * len(case["files"]))]
         for i, fd in enumerate(case["files"]):
             text, pos = file_text(fd)
-            p = os.path.join(tmp, f"m{i}.c30itm")
+            p = os.path.join(tmp, f"m{i}." + ("c30itm" if langs[i] == "a" else "c30b"))
             with open(p, "w", encoding="utf-8") as f:
                 f.write(text)
             paths.append(p)
             defects.append(pos)
         clear_language_registrations()
         clear_generator_registrations()
-        register_language(LanguageDesc("c30lang", pattern="*.c30itm", description="", metamodel=lambda: metamodel_from_file(gpath)))
-        sel = case["select"]
+        def lang_mm():
+            mm_ = metamodel_from_file(gpath)
+            mm_.model_param_defs.add("my_param", "a model parameter of this language")
+            return mm_
+
+        register_language(LanguageDesc("c30lang", pattern="*.c30itm", description="", metamodel=lang_mm))
+        register_language(LanguageDesc("c30langb", pattern="*.c30b", description="", metamodel=lang_mm))
         icase = case["ignore_case"] and sel == "grammar"
         valid = []
         for fd in case["files"]:
@@ -213,6 +237,16 @@ def evaluate(case):
             decl = case["declared"]
             register_generator(GeneratorDesc(language=lang, target="c30target", description="", generator=gen,
                                              custom_args=None if decl is None else [GeneratorParam(n, "d", m) for n, m in decl]))
+            decl_of = {"a": decl, "b": decl}
+            if lang != "any":
+                # the second language has a generator of its own, with its own declared parameters
+                def gen_b(metamodel, model, output_path, overwrite, debug, **custom_args):
+                    calls.append((getattr(model, "_tx_filename", None), dict(custom_args), overwrite, output_path, "b"))
+
+                declb = case.get("declared_b")
+                decl_of["b"] = declb
+                register_generator(GeneratorDesc(language="c30langb", target="c30target", description="", generator=gen_b,
+                                                 custom_args=None if declb is None else [GeneratorParam(n, "d", m) for n, m in declb]))
             argv += ["--target", "c30target"]
             if case["overwrite"]:
                 argv.append("--overwrite")
@@ -242,24 +276,27 @@ def evaluate(case):
             order_files = deferred + order_files
             argv += toks
             exp_args = {norm(n): (True if v is None else v) for n, v in case["args"]}
-            args_ok = True
-            if decl is not None:
-                dn = {n for n, _ in decl}
-                if any(m and n not in exp_args for n, m in decl) or any(k not in dn for k in exp_args):
-                    args_ok = False
+            def ok_for(d):
+                if d is None:
+                    return True
+                dn = {n for n, _ in d}
+                return not (any(m and n not in exp_args for n, m in d) or any(k not in dn for k in exp_args))
+
+            args_ok = all(ok_for(decl_of[langs[i]]) for i in order_files) if order_files else ok_for(decl)
             exp_calls = []
             exp_exit = 0
+            first_bad = None
             for i in order_files:
                 if not valid[i]:
                     exp_exit = 1
+                    first_bad = i
                     break
-                if not args_ok:
+                if not ok_for(decl_of[langs[i]]):
                     exp_exit = 1
                     break
-                exp_calls.append((paths[i], exp_args, case["overwrite"], outdir))
-            first_bad = next((i for i in order_files if not valid[i]), None)
-            if first_bad is not None and not args_ok and order_files.index(first_bad) > 0:
-                first_bad = None  # the argument error comes first
+                exp_calls.append((paths[i], exp_args, case["overwrite"], outdir, "b" if (langs[i] == "b" and lang != "any") else "a"))
+            if len(set(langs)) > 1:
+                out.cls("two_languages_in_one_command")
             dashed = any("-" in n for n, _ in case["args"])
             bare = any(v is None for _, v in case["args"])
             out.nontrivial = dashed or bare or decl is not None
@@ -313,11 +350,14 @@ def evaluate(case):
                         feat = "/bare_flag_with_dash"
                     out.add(f"{kind}_error_not_located{feat}", f"{shown}: expected an error containing {want!r}; got {errs}")
         if exp_calls is not None:
-            got = [(os.path.abspath(c[0]) if c[0] else None, c[1], c[2], c[3]) for c in calls]
+            got = [(os.path.abspath(c[0]) if c[0] else None, c[1], c[2], c[3], c[4] if len(c) > 4 else "a") for c in calls]
             if [(g[0], g[1]) for g in got] != [(e[0], e[1]) for e in exp_calls]:
                 feat = "/bare_flag_with_dash" if any("-" in n and v is None for n, v in case["args"]) else ""
                 out.add(f"generator_arguments{feat}", f"{shown}: generator calls {[(os.path.basename(g[0] or ''), g[1]) for g in got]}, "
                         f"expected {[(os.path.basename(e[0]), e[1]) for e in exp_calls]}")
+            elif [g[4] for g in got] != [e[4] for e in exp_calls]:
+                out.add("generator_of_another_language_called", f"{shown}: generators called {[g[4] for g in got]}, "
+                        f"expected {[e[4] for e in exp_calls]}")
             elif [(g[2], g[3]) for g in got] != [(e[2], e[3]) for e in exp_calls]:
                 out.add("generator_overwrite_or_output_path", f"{shown}: got {[(g[2], g[3]) for g in got]}")
         return out
